@@ -284,7 +284,7 @@ def eval_check(run, fams, rule, assumptions=None):
 
 @check("C02")
 def c02(run):
-    fams = ["c02chains", "c02truth", "c02empty"] if run.tier == "quick" else ["c02chains", "c02chains3", "c02truth", "c02empty"]
+    fams = ["c02chains", "c02chains3q", "c02truth", "c02empty"] if run.tier == "quick" else ["c02chains", "c02chains3", "c02truth", "c02empty"]
     return eval_check(run, fams,
                       "every @if chain shape (0..2 @elseif, with/without @else; thorough: 3 branches and all nesting "
                       "contexts) x every vector of conditions over truthy / falsy / raising expressions of every value "
